@@ -267,7 +267,7 @@ fn main() {
                 let per = rng.range(1, 3) as usize;
                 let kind = *rng.pick(&[StoreKind::Per, StoreKind::Ada, StoreKind::Pro]);
                 let cap = *rng.pick(&[1usize, 1, 2, 8]);
-                let hostile = rng.chance(1, 2);
+                let hostile = rng.chance(1, 2) || arg_u64("--hostile", 0) == 1;
                 // keep the linearizability search small: at most 7 requests in total
                 let (k, per) = if k * per > 7 { (7 / per, per) } else { (k, per) };
                 let k = k.max(1);
